@@ -21,6 +21,7 @@ import os
 import re
 import subprocess
 import sys
+import time
 import traceback
 
 from .. import celrun, outcome, repo, runner
@@ -255,8 +256,6 @@ def fresh_list(tier):
             seen.add(k)
             out.append((argv, stdin))
 
-    for a, s, _ in subprocess_list(tier):
-        add(a, s)
     for c in build_cases("quick"):
         if tier == "thorough":
             take = c["group"] in ("arg", "single", "slurp") or (c["group"] == "n" and not c["boolean"]) or \
@@ -587,7 +586,9 @@ def run_subprocess(argv, stdin_text):
                            env=env, cwd=SCRATCH, timeout=300)
     except subprocess.TimeoutExpired as ex:
         raise runner.HarnessError(f"subprocess timed out: {argv!r}") from ex
-    return {"rc": p.returncode, "out": p.stdout.decode("utf-8", "replace"), "err": _ADDR.sub("0x", p.stderr.decode("utf-8", "replace"))[-ERR_KEEP:]}
+    err = p.stderr.decode("utf-8", "replace")
+    return {"rc": p.returncode, "out": p.stdout.decode("utf-8", "replace"), "err": _ADDR.sub("0x", err)[-ERR_KEEP:], "traceback": "Traceback (most recent call last)" in err,
+            "err_head": _ADDR.sub("0x", err)[:ERR_KEEP]}
 
 
 def judge_subprocess(part, argv, stdin_text, tag, inproc, sub):
@@ -601,17 +602,20 @@ def judge_subprocess(part, argv, stdin_text, tag, inproc, sub):
     if sub["rc"] != exp_rc:
         part.violation("subprocess-status", f"subprocess:status:{tag}:main={code(inproc)}:rc={sub['rc']}", wit,
                        f"{cmd}: main() in process gave {inproc['st']}, the process exit status is {sub['rc']}; stderr tail {sub['err'][-300:]!r}")
-    if code(inproc) == "exc" and "Traceback" not in sub["err"]:
-        part.violation("subprocess-status", f"subprocess:no-traceback:{tag}", wit, f"{cmd}: in process uncaught {inproc['st']}, subprocess stderr has no traceback")
+    if (code(inproc) == "exc") != sub["traceback"]:
+        part.violation("subprocess-status", f"subprocess:traceback-mismatch:{tag}", wit, f"{cmd}: in process {inproc['st']}, subprocess stderr {'has a' if sub['traceback'] else 'has no'} traceback")
     if sub["out"] != inproc["out"]:
         part.violation("subprocess-output", f"subprocess:stdout:{tag}", wit, f"{cmd}: in-process stdout {inproc['out']!r}, subprocess stdout {sub['out']!r}")
+    first = inproc["err"].split("\n")[0]
+    if inproc["st"][0] == "ret" and first and len(inproc["err"]) < ERR_KEEP and first not in sub["err_head"]:
+        part.violation("subprocess-stderr", f"subprocess:stderr:{tag}", wit, f"{cmd}: main() in process wrote {first!r} to stderr, the subprocess wrote {sub['err_head'][:300]!r}")
     part.extra["traces_validated_against_subprocess"] += 1
 
 
 def subprocess_shard(task):
     part = runner.Part()
-    for argv, stdin_text, tag, inproc in task:
-        judge_subprocess(part, argv, stdin_text, tag, inproc, run_subprocess(argv, stdin_text))
+    for argv, stdin_text, tag in task:
+        judge_subprocess(part, argv, stdin_text, tag, drive(argv, stdin_text), run_subprocess(argv, stdin_text))
     part.space("subprocess-fixed-list", 0, len(task))
     return part
 
@@ -667,6 +671,8 @@ def run(ctx):
     for chunk in runner.pmap(fresh_shard, [fl[i:i + per] for i in range(0, len(fl), per)]):
         fresh.update(chunk)
     ctx.coverage_extra["fresh_fork_observations"] = len(fresh)
+    phase = {"fresh_forks_s": round(time.time() - ctx.t0, 1)}
+    t1 = time.time()
     # 2. every non-stream case in long-lived workers
     tasks = []
     for g in GROUP_SPACE:
@@ -674,6 +680,7 @@ def run(ctx):
             keys = {case_key(c["argv"], c["stdin"]) for c in [c for c in cases if c["group"] == g][lo:hi]}
             tasks.append((tier, g, lo, hi, {k: fresh[k] for k in keys if k in fresh}))
     ctx.run_shards(case_shard, tasks)
+    phase["cases_s"], t1 = round(time.time() - t1, 1), time.time()
     # 3. streams
     stasks = []
     for n in range(0, L + 1):
@@ -681,10 +688,13 @@ def run(ctx):
             for lo, hi in runner.shards(len(DOCS) ** n, max(1, len(DOCS) ** n // 1024)):
                 stasks.append((tier, ci, n, lo, hi))
     ctx.run_shards(stream_shard, stasks)
+    phase["streams_s"], t1 = round(time.time() - t1, 1), time.time()
     # 4. the fixed list through a real interpreter process
-    sl = [(a, s, tag, fresh[case_key(a, s)]) for a, s, tag in subprocess_list(tier)]
+    sl = subprocess_list(tier)
     per = max(1, -(-len(sl) // (runner.NPROC * 2)))
     ctx.run_shards(subprocess_shard, [sl[i:i + per] for i in range(0, len(sl), per)])
+    phase["subprocesses_s"] = round(time.time() - t1, 1)
+    ctx.coverage_extra["phase_wall"] = phase
     # cardinalities (closed forms, independent of the loops)
     spaces = ctx.part.spaces
     for name, n in card.items():
@@ -708,7 +718,7 @@ def run(ctx):
     ctx.coverage_extra["bound"] = {"stream_length": L, "documents": len(DOCS), "configurations": len(CONFIGS)}
     ctx.coverage_extra["expected_cases"] = expected
     due = sum(1 for c in cases if case_key(c["argv"], c["stdin"]) in fresh)
-    if extra.get("fresh_fork_comparisons", 0) != due or due < len(fresh) - 60 or due < 300:
+    if extra.get("fresh_fork_comparisons", 0) != due or due != len(fresh) or due < len(CONFIGS) * len(DOCS):
         raise runner.HarnessError(f"fresh comparisons made {extra.get('fresh_fork_comparisons')}, due {due}, fresh observations {len(fresh)}")
     confirm(ctx)
 
@@ -766,7 +776,7 @@ def replay(w):
         print(f"  stream  {show(obs)}")
         judge_stream(part, ci, seq, singles, obs)
     elif chk == "subprocess":
-        inproc = fresh_drive(wit["argv"], wit["stdin"])
+        inproc = drive(wit["argv"], wit["stdin"])
         sub = run_subprocess(wit["argv"], wit["stdin"])
         print(f"  in process {show(inproc)}\n  subprocess rc={sub['rc']} stdout={sub['out']!r} stderr tail={sub['err'][-200:]!r}")
         judge_subprocess(part, wit["argv"], wit["stdin"], wit["group"], inproc, sub)
